@@ -1717,23 +1717,38 @@ def rule_moment_pipeline(ctx, prog, rule="R19"):
 
 # ======================================================================================= C01 interpolation layer
 
-def fn_term(prog, body, names, depth=0):
-    """T-term of the value a loop-free, branch-free crate function returns, private helper calls inlined"""
+def fn_term(prog, body, names, depth=0, pick_field=None):
+    """T-term of the value a loop-free, branch-free crate function returns, private helper calls inlined
+    (pick_field: the function returns a tuple aggregate and only that component is wanted)"""
     tb = prog.tracked(body)
+
+    def local_helper(e):
+        if isinstance(e, tuple) and e[0] == "call" and e[2].startswith("quantile::interpolate::") and depth < 4:
+            cb = prog.bodies.get(e[2])
+            if cb is not None and not any(cb.term(bb)["k"] == "switch" for bb in cb.live_blocks()):
+                return cb
+        return None
 
     def leaf(e):
         if isinstance(e, tuple) and e[0] == "param" and e[1] in names:
             return names[e[1]]
-        if isinstance(e, tuple) and e[0] == "call" and e[2].startswith("quantile::interpolate::") and depth < 4:
-            cb = prog.bodies.get(e[2])
-            if cb is not None and not any(cb.term(bb)["k"] == "switch" for bb in cb.live_blocks()):
-                sub_names = {}
-                for i, a in enumerate(e[3]):
-                    sub_names[i + 1] = K.term(a)
-                return fn_term(prog, cb, sub_names, depth + 1)
+        cb = local_helper(e)
+        if cb is not None:
+            return fn_term(prog, cb, {i + 1: K.term(a) for i, a in enumerate(e[3])}, depth + 1)
+        if isinstance(e, tuple) and e[0] == "field":
+            base = ds(e[1])
+            cb = local_helper(base)
+            if cb is not None:
+                return fn_term(prog, cb, {i + 1: K.term(a) for i, a in enumerate(base[3])}, depth + 1, pick_field=int(e[2]))
         return None
     K = Kernel(prog, tb, leaf)
-    return K.term(tb.return_expr())
+    r = tb.return_expr()
+    if pick_field is not None:
+        rr = ds(r)
+        if not (isinstance(rr, tuple) and rr[0] == "agg" and pick_field < len(rr[3])):
+            raise Unrecognised("helper does not return a tuple aggregate: `%s`" % fmt(rr)[:80])
+        r = rr[3][pick_field]
+    return K.term(r)
 
 
 def rule_c01_interpolation(ctx, prog, rule="R19"):
